@@ -20,6 +20,12 @@ def apply_ops(path, ops):
     for op in ops:
         try:
             k = op[0]
+            kw = {}
+            if k == 'R':                       # ('R', filter op): the same filter call with clear_existing=True
+                op = op[1]
+                k = op[0]
+                kw = {'clear_existing': True}
+                res.append('done')             # the clearing half (the model runs `c` then the filter)
             if k == 'r':
                 try:
                     res.append('m%d' % int(r.read_next()[0]))
@@ -32,21 +38,21 @@ def apply_ops(path, ops):
                 classes = [message_type_to_class.get(e) for e in enums]
                 style = op[2] if len(op) > 2 else 0
                 if style == 1 and all(c is not None for c in classes):
-                    r.filter_in_place(classes if len(classes) != 1 else classes[0])      # payload classes
+                    r.filter_in_place(classes if len(classes) != 1 else classes[0], **kw)      # payload classes
                 elif style == 2:
-                    r.filter_in_place(tuple(enums) if len(enums) != 1 else enums[0])      # tuple / a single MessageType
+                    r.filter_in_place(tuple(enums) if len(enums) != 1 else enums[0], **kw)      # tuple / a single MessageType
                 else:
-                    r.filter_in_place(set(enums))
+                    r.filter_in_place(set(enums), **kw)
             elif k == 'F':                                                          # slice of absolute P1 times (floats)
-                r.filter_in_place(slice(op[1], op[2]))
+                r.filter_in_place(slice(op[1], op[2]), **kw)
             elif k == 'T':
                 kind, s, e, t0 = op[1]
                 tr = TimeRange(start=s, end=e, absolute=(kind == 'a'), p1_t0=None if t0 is None else Timestamp(t0))
-                r.filter_in_place(tr)
+                r.filter_in_place(tr, **kw)
             elif k == 's':
-                r.filter_in_place(slice(op[1], op[2]))
+                r.filter_in_place(slice(op[1], op[2]), **kw)
             elif k == 'u':
-                r.filter_out_invalid_p1_times()
+                r.filter_out_invalid_p1_times(**kw)
             elif k == 'c':
                 r.clear_filters()
             elif k == 'w':
@@ -68,8 +74,24 @@ def apply_ops(path, ops):
     return out
 
 
+def norm_op(o):
+    """An operation as stored in a replay (JSON lists) -> the tuples used here."""
+    o = list(o)
+    if o[0] == 'R':
+        return ('R', norm_op(o[1]))
+    if o[0] == 'T':
+        return ('T', tuple(o[1]))
+    return tuple(o)
+
+
+def jsonable(o):
+    return [jsonable(x) if isinstance(x, tuple) else x for x in o]
+
+
 def op_text(op):
     k = op[0]
+    if k == 'R':                               # filter_in_place(key, clear_existing=True) == clear_filters(), then the filter
+        return 'c;' + op_text(op[1])
     if k == 't':
         return 't:' + (','.join(map(str, op[1])) or '=')
     if k == 'T':
@@ -89,13 +111,23 @@ def op_text(op):
 
 
 def gen_op(rng, msgs):
+    """One random operation; a filter operation is, one time in four, the replacing form (clear_existing=True)."""
+    op = gen_plain_op(rng, msgs)
+    if op[0] in 'tFTsu' and rng.random() < 0.25:
+        return ('R', op)
+    return op
+
+
+def gen_plain_op(rng, msgs):
     n = len(msgs)
     types = sorted(set(m['type'] for m in msgs)) or [10000]
     ts = [m['timeNs'] / rc.NS for m in msgs if m['timeNs'] is not None]
     lo, hi = (min(ts), max(ts)) if ts else (1.0, 4.0)
     k = rng.choice('rrrrtTFsucwke')
     if k == 't':
-        return ('t', rng.choice([[rng.choice(types)], rng.sample(types, min(2, len(types))), [424]]), rng.randrange(3))
+        # one type, two types, a type the log does not have, every type of the log (matches everything), all but one
+        return ('t', rng.choice([[rng.choice(types)], rng.sample(types, min(2, len(types))), [424], list(types),
+                                 rng.sample(types, max(1, len(types) - 1))]), rng.randrange(3))
     if k == 'F':
         grid = [None, 0.0, lo, lo + 0.25, lo + 1.0, (lo + hi) / 2 // 0.25 * 0.25, hi, hi + 2]
         a, b = rng.choice(grid), rng.choice(grid)
@@ -114,11 +146,55 @@ def gen_op(rng, msgs):
         t0 = rng.choice([None, None, lo, lo + 0.5]) if kind == 'r' else None
         return ('T', (kind, s, e, t0))
     if k == 's':
+        if rng.random() < 0.2:                  # a slice that keeps everything
+            return ('s', 0, n + rng.choice([0, 1, 5]))
         i = rng.randrange(0, n + 2)
         return ('s', i, rng.randrange(i, n + 3))
     if k == 'k':
         return ('k', rng.randrange(0, n + 2), rng.random() < 0.5)
     return (k,)
+
+
+PATTERN_KINDS = {'P': (True, 0), 'G': (True, 1), 'E': (False, 0), 'V': (False, 1)}     # two timed classes, two untimed ones
+
+
+def make_pattern_log(pattern, t_start=10.0, step=0.5):
+    """A clean log (no junk) whose message types follow the given pattern of letters P G (timed) E V (untimed)."""
+    import gen
+    timed, untimed = rc.timed_payloads()
+    t = t_start
+    parts = []
+    for seq, ch in enumerate(pattern):
+        is_timed, which = PATTERN_KINDS[ch]
+        ty, p, v = (timed if is_timed else untimed)[which](t)
+        if is_timed:
+            t += step
+        parts.append(gen.frame(ty, p, seq, 0, v))
+    return b''.join(parts)
+
+
+def pattern_logs(ctx, rng):
+    """Small logs over 2-4 types with repeated patterns: a type A at both ends and the other types, shuffled and possibly
+    repeated, in between (A x y A, A x x y A, A y x A ...), plus unconstrained random patterns.  Generated once per run."""
+    if getattr(ctx, '_c11_pattern_logs', None) is None:
+        pats = []
+        for _ in range(8 if ctx.thorough else 3):
+            letters = rng.sample('PGEV', rng.choice([3, 3, 4]))
+            mid = [rng.choice(letters[1:]) for _ in range(rng.choice([2, 3, 4]))]
+            if len(set(mid)) < 2:
+                mid[0], mid[-1] = letters[1], letters[2]
+            pats.append(letters[0] + ''.join(mid) + letters[0])
+        for _ in range(4 if ctx.thorough else 1):
+            letters = rng.sample('PGEV', 3)
+            pats.append(''.join(rng.choice(letters) for _ in range(rng.choice([4, 5, 6]))))
+        out = []
+        for k, pat in enumerate(pats):
+            data = make_pattern_log(pat, t_start=rng.choice([0.0, 1.0, 10.0]), step=rng.choice([0.25, 0.5, 1]))
+            path = ic.write_log(data, 'c11_pattern_%d.p1log' % k)
+            out.append((data, path, rc.unfiltered(path)))
+            ctx.count('pattern_logs')
+        ctx._c11_pattern_logs = out
+    return ctx._c11_pattern_logs
 
 
 def run(ctx, budget):
@@ -159,6 +235,70 @@ def run(ctx, budget):
                     for script in ([t, T], [T, t], [t, A], [t, ('r',), T], [t, T, ('c',)], [t, ('u',), T]):
                         scripts.append((lg2, script + [('r',)] * 3))
                         ctx.count('directed_type_then_range_scripts')
+
+    # (a) replacing filters after the cursor has advanced inside an earlier filter: narrowing filter N, advance (reads / a
+    # seek in the filtered index), then ONE filter call with clear_existing=True whose key keeps everything, nearly
+    # everything, or little, then reads to the end.  Every key kind, on every log.
+    for lg2 in logs + pattern_logs(ctx, rng):
+        msgs2 = lg2[2]
+        n = len(msgs2)
+        if n < 2:
+            continue
+        tys = sorted(set(m['type'] for m in msgs2))
+        tt = [m['timeNs'] / rc.NS for m in msgs2 if m['timeNs'] is not None]
+        narrow = [('t', [ty], 0) for ty in tys] + [('s', 1, n), ('s', 0, n - 1), ('s', 1, n - 1), ('u',)]
+        keys = [('t', list(tys), 0), ('t', list(tys), 1), ('t', list(tys), 2), ('t', tys[1:] or tys, 0),
+                ('s', 0, n), ('s', 0, n + 5), ('s', 0, n - 1), ('T', ('r', None, None, None)), ('T', ('a', None, None, None)),
+                ('T', ('r', 0.0, None, None)), ('u',)]
+        if tt:
+            narrow.append(('T', ('r', 0.25, None, None)))
+            keys += [('T', ('a', min(tt), None, None)), ('T', ('a', None, max(tt) + 1.0, None)), ('F', 0.0, max(tt) + 1.0),
+                     ('T', ('r', None, max(tt) - min(tt) + 1.0, None))]
+        advances = [[('r',)], [('r',)] * 2, [('r',)] * 3, [('k', 1, True)], [('k', 2, True), ('r',)], [('e',)]]
+        combos = [(N, A, K) for N in narrow for A in advances for K in keys]
+        if not ctx.thorough:
+            combos = rng.sample(combos, min(len(combos), 40))
+        for N, A, K in combos:
+            scripts.append((lg2, [N] + A + [('R', K)] + [('r',)] * (n + 1)))
+            ctx.count('directed_advance_then_replacing_filter_scripts')
+
+    # (b) the same type selection applied, in ONE reader, to two different filtered lists: X, T, reads, <clear / rewind>, Y, T,
+    # reads to the end, for type sets X, Y, T of small logs with few types in repeated patterns (so that two filtered lists
+    # often agree in their first entry, last entry and length while differing in between).  The answer to the second T must
+    # not depend on the first.
+    for lg2 in pattern_logs(ctx, rng):
+        msgs2 = lg2[2]
+        n = len(msgs2)
+        tys = sorted(set(m['type'] for m in msgs2))
+        subsets = [list(c) for k in range(1, len(tys) + 1) for c in itertools.combinations(tys, k)]
+        makers = [('t', x, 0) for x in subsets] + [('s', 0, n - 1), ('s', 1, n), ('u',)]
+        mids = [[('c',)], [('w',), ('c',)], [('c',), ('w',)], None]         # None: Y itself is the replacing filter
+        combos = [(X, Y, T) for X in makers for Y in makers if X != Y for T in subsets]
+        if not ctx.thorough:
+            combos = rng.sample(combos, min(len(combos), 300))
+        for X, Y, T in combos:
+            for mid in (mids if ctx.thorough else [rng.choice(mids)]):
+                t = ('t', T, rng.randrange(3))
+                second = [('R', Y)] if mid is None else mid + [Y]
+                scripts.append((lg2, [X, t, ('r',)] + second + [t] + [('r',)] * (n + 1)))
+                ctx.count('directed_same_type_set_on_two_filtered_lists_scripts')
+        # longer random histories (5-8 steps, then reads to the end) over the type sets of the log, clear and rewind
+        for _ in range(400 if ctx.thorough else 40):
+            hist = []
+            for _ in range(rng.choice([5, 6, 7, 8])):
+                c = rng.choice('ttttcRrwsk')
+                if c == 't':
+                    hist.append(('t', rng.choice(subsets), rng.randrange(3)))
+                elif c == 'R':
+                    hist.append(('R', ('t', rng.choice(subsets), rng.randrange(3))))
+                elif c == 's':
+                    hist.append(rng.choice([('s', 0, n - 1), ('s', 1, n), ('s', 0, n)]))
+                elif c == 'k':
+                    hist.append(('k', rng.randrange(0, n), rng.random() < 0.5))
+                else:
+                    hist.append((c,))
+            scripts.append((lg2, hist + [('r',)] * (n + 1)))
+            ctx.count('long_type_set_histories')
 
     # argument objects are reused by callers: ONE TimeRange object applied to readers of different logs (different first P1
     # times), in both orders; every reader must behave as if it had been given a range object of its own
@@ -202,23 +342,21 @@ def run(ctx, budget):
                           'one relative TimeRange object applied to the readers of two logs: reader %d answered %s, the filtered-list '
                           'cursor of its own log gives %s' % (replay['reader_of_file'], got[:12], want[:12]), replay)
 
-    def untuple(o):
-        return tuple(tuple(x) if isinstance(x, list) and o[0] == 'T' else x for x in o)
     for k, r in enumerate(fv.corpus('C11')):      # regression corpus first
         if 'file' in r and 'ops' in r:
             data = bytes.fromhex(r['file'])
             path = ic.write_log(data, 'c11_corpus_%d.p1log' % k)
-            scripts.insert(0, ((data, path, rc.unfiltered(path)), [untuple(o) for o in r['ops']]))
+            scripts.insert(0, ((data, path, rc.unfiltered(path)), [norm_op(o) for o in r['ops']]))
             ctx.count('corpus_cases')
     for (data, path, msgs), ops in scripts:
         r = apply_ops(path, ops)
         text = ';'.join(op_text(o) for o in ops) or '-'
         lines.append('rdcursor %s %s' % (rc.log_text(msgs), text))
         lines.append('rdcursorspec %s %s' % (rc.log_text(msgs), text))
-        pending.append(({'file': data.hex(), 'ops': [list(map(lambda x: x if not isinstance(x, tuple) else list(x), o)) for o in ops],
+        pending.append(({'file': data.hex(), 'ops': [jsonable(o) for o in ops],
                          'ops_text': text}, r))
         for o in ops:
-            ctx.count('op_' + o[0])
+            ctx.count('op_' + (o[0] if o[0] != 'R' else 'R_' + o[1][0]))
     outs = ctx.driver(lines)
     for i, (replay, r) in enumerate(pending):
         mo, so = outs[2 * i], outs[2 * i + 1]
@@ -250,7 +388,11 @@ def check(ctx):
                        'by index slice, remove-untimed, clear_filters, rewind, seek_to_message(i, filtered or not), seek_to_eof}: random '
                        'scripts of length 1-12 on several generated logs plus ALL scripts of length %d over an 11-operation alphabet '
                        '(each followed by two reads) on one log; compared: the ordinal returned by every read_next or StopIteration, '
-                       'error kinds, and next_index_elem / len(index) at the end; distinct = distinct script' % (4 if ctx.thorough else 3))
+                       'error kinds, and next_index_elem / len(index) at the end; every filter operation also in its replacing form '
+                       '(clear_existing=True, = clear then filter; keys that keep everything / nearly everything / little, applied '
+                       'after the cursor advanced inside an earlier filter); on small pattern logs (2-4 types, same type at both '
+                       'ends) histories X, T, read, clear/rewind, Y, T, read-to-end over the type sets X, Y, T of the log and random '
+                       '5-8 step type-set histories; distinct = distinct script' % (4 if ctx.thorough else 3))
     ctx.assumptions += ['no source filter / max_bytes in cursor scripts (covered by C10)', 'P1 times are multiples of 0.25 s']
     ctx.prove(MODULES)
     try:
@@ -266,7 +408,7 @@ def replay(ctx, path):
     r = obj['input']
     data = bytes.fromhex(r['file'])
     p = ic.write_log(data)
-    ops = [tuple(tuple(x) if isinstance(x, list) and o[0] == 'T' else x for x in o) for o in r['ops']]
+    ops = [norm_op(o) for o in r['ops']]
     res = apply_ops(p, ops)
     msgs = rc.unfiltered(p)
     text = ';'.join(op_text(o) for o in ops) or '-'
